@@ -83,6 +83,9 @@ class AstToODataVisitor(visitor.NodeVisitor):
 
     def visit_List(self, node: ast.List) -> str:
         """:meta private:"""
+        if len(node.val) == 1:
+            # A single item list needs a trailing comma to be told apart from parentheses.
+            return "(" + self.visit(node.val[0]) + ",)"
         return "(" + ", ".join(self.visit(v) for v in node.val) + ")"
 
     def visit_Add(self, node: ast.Add) -> str:
